@@ -65,6 +65,8 @@ REQUIRED_THEOREMS = [
     "manifold_quads_triangulate_iff", "manifold_preserved_sub6_partial",
     # round 7: 1->6 at full strength (orientation + border sides)
     "manifold_preserved_sub6", "border_loops_preserved_quads3_sub6",
+    # round 8: border loops through the fan and the quad cut
+    "border_loops_preserved_fan_quad_cut",
 ]
 TRUSTED = [
     "Lean 4.33.0 kernel; axioms ⊆ {propext, Classical.choice, Quot.sound}",
